@@ -425,8 +425,10 @@ func genC19(o *out, r *rng, thorough bool) {
 	// the kernels regenerated from the source, on arbitrary doubles
 	if thorough {
 		genKern(o, r, 400000)
+		genXkern(o, r, 400000)
 	} else {
 		genKern(o, r, 20000)
+		genXkern(o, r, 20000)
 	}
 	// exhaustive (segment, point) triples on the LxL lattice
 	for a := 0; a < L*L; a++ {
@@ -542,6 +544,12 @@ func randSeq(r *rng, n int, span int, u int) []ipt {
 
 // C18 + C11(geometry): attributes of all short sequences on the 3x3 lattice, random long ones
 func genC18(o *out, r *rng, thorough bool) {
+	// processPoints regenerated from the source, on arbitrary doubles
+	if thorough {
+		genKproc(o, r, 200000)
+	} else {
+		genKproc(o, r, 15000)
+	}
 	maxLen := 5
 	if thorough {
 		maxLen = 6
